@@ -79,8 +79,10 @@ func (c *Controller) handleEvent(evt config.Event) {
 	case *config.SvcConfigEvent:
 		c.handleSvcConfigUpdate(evt.Name, evt.Config)
 	case *config.SvcEndpointEvent:
-		c.handleSvcEndpointsAdd(evt.Name, evt.Added)
+		// NOTE: The removed endpoints must be handled first like the config
+		// does, an endpoint could be removed and added back in one update.
 		c.handleSvcEndpointsRemove(evt.Name, evt.Removed)
+		c.handleSvcEndpointsAdd(evt.Name, evt.Added)
 	default:
 		logger.Warnf("unkown event: %v", evt)
 	}
